@@ -177,6 +177,7 @@ def check_property(prop, tier, repo, record=False, verbose=False):
             sys.path.insert(0, VERIF)
             from replay import realisers as _R2
             prop_files = {f["function"].split("::")[0] for f in rep["functions"]} | {u["function"].split("::")[0].lstrip("('") for u in rep["undecided"]}
+            prop_files |= {q.split("::")[0] for (q, _c), c in rep["world"].contracts.items() if prop in c.props}
             keys2 = {}
             for q in changed:
                 if q.split("::")[0] not in prop_files:
